@@ -125,12 +125,14 @@ class Explorer:
           break
         self.cache.setdefault(p.key, []).append(p.used)
       budget, costs = p.costs
+      if budget == 0 and self.bounds[0] < 0:
+        continue      # default schedule only: no scheduling alternatives at all
       for alt in range(1, p.n):
         if alt == p.chosen:
           continue
         used = list(p.used)
         used[budget] += costs[alt]
-        if used[0] > self.bounds[0] or used[1] > self.bounds[1]:
+        if used[0] > max(self.bounds[0], 0) or used[1] > self.bounds[1]:
           continue
         out.append(res.choices[:i] + [alt])
     return out
